@@ -222,7 +222,7 @@ func init() {
 	empty(id("minecraft:dimension", mapSet(Minecraft_1_21_6, 41), mapSet(Minecraft_1_20_5, 40), mapSet(Minecraft_1_20_3, 39), mapSet(Minecraft_1_19_3, 38), mapSet(Minecraft_1_19, 41)))
 	empty(id("minecraft:gamemode", mapSet(Minecraft_1_21_6, 42), mapSet(Minecraft_1_20_5, 41), mapSet(Minecraft_1_20_3, 40), mapSet(Minecraft_1_19_3, 39)))
 	emptyWithCodec(id("minecraft:time", mapSet(Minecraft_1_21_6, 43), mapSet(Minecraft_1_20_5, 42), mapSet(Minecraft_1_20_3, 41), mapSet(Minecraft_1_19_3, 40), mapSet(Minecraft_1_19, 42)), TimeArgumentPropertyCodec)
-	register(id("minecraft:resource_or_tag", mapSet(Minecraft_1_21_6, 44), mapSet(Minecraft_1_20_5, 43), mapSet(Minecraft_1_20_3, 42), mapSet(Minecraft_1_19_3, 41), mapSet(Minecraft_1_19, 43)), RegistryKeyArgument, RegistryKeyArgumentPropertyCodec)
+	register(id("minecraft:resource_or_tag", mapSet(Minecraft_1_21_6, 44), mapSet(Minecraft_1_20_5, 43), mapSet(Minecraft_1_20_3, 42), mapSet(Minecraft_1_19_3, 41), mapSet(Minecraft_1_19, 43)), ResourceOrTagArgument, ResourceOrTagArgumentPropertyCodec)
 	register(id("minecraft:resource_or_tag_key", mapSet(Minecraft_1_21_6, 45), mapSet(Minecraft_1_20_5, 44), mapSet(Minecraft_1_20_3, 43), mapSet(Minecraft_1_19_3, 42)), ResourceOrTagKeyArgument, ResourceOrTagKeyArgumentPropertyCodec)
 	register(id("minecraft:resource", mapSet(Minecraft_1_21_6, 46), mapSet(Minecraft_1_20_5, 45), mapSet(Minecraft_1_20_3, 44), mapSet(Minecraft_1_19_3, 43), mapSet(Minecraft_1_19, 44)), RegistryKeyArgument, RegistryKeyArgumentPropertyCodec)
 	register(id("minecraft:resource_key", mapSet(Minecraft_1_21_6, 47), mapSet(Minecraft_1_20_5, 46), mapSet(Minecraft_1_20_3, 45), mapSet(Minecraft_1_19_3, 44)), ResourceKeyArgument, ResourceKeyArgumentPropertyCodec)
